@@ -240,3 +240,106 @@ Proof.
     apply Z.eqb_eq. apply E. apply in_map. apply nth_In. lia.
   - eapply IH; eauto.
 Qed.
+
+(* ------------------------------------------------------------------ coherence of the equilibration loop:
+   the matrix the loop holds when it returns IS the input matrix scaled by the exponents it returns *)
+Definition ent_eq (e e' : entry) : Prop :=
+  fst (fst e) = fst (fst e') /\ snd (fst e) = snd (fst e') /\ snd e == snd e'.
+
+Lemma ldexp_ldexp v a b : ldexp (ldexp v a) b == ldexp v (a + b).
+Proof. unfold ldexp. rewrite p2_add. ring. Qed.
+Lemma ldexp_zero v : ldexp v 0 == v.
+Proof. unfold ldexp, p2. cbn. ring. Qed.
+Lemma ldexp_compat v v' k : v == v' -> ldexp v k == ldexp v' k.
+Proof. intros E. unfold ldexp. rewrite E. reflexivity. Qed.
+
+Lemma nth_map2_add (D s : list Z) r : length D = length s ->
+  nth r (map2 Z.add D s) 0%Z = (nth r D 0 + nth r s 0)%Z.
+Proof.
+  revert s r. induction D as [|d D IH]; intros [|z s] r HL; cbn in *; try discriminate.
+  - destruct r; reflexivity.
+  - destruct r as [|r]; [reflexivity|]. apply IH. lia.
+Qed.
+
+Lemma rescale_compat es es' s : Forall2 ent_eq es es' -> Forall2 ent_eq (rescale es s) (rescale es' s).
+Proof.
+  induction 1 as [|[[r c] v] [[r' c'] v'] es es' [E1 [E2 E3]] _ IH]; cbn; constructor; [|exact IH].
+  cbn in *. subst. repeat split; try reflexivity. cbn. apply ldexp_compat. exact E3.
+Qed.
+Lemma rescale_rescale es D s : length D = length s ->
+  Forall2 ent_eq (rescale (rescale es D) s) (rescale es (map2 Z.add D s)).
+Proof.
+  intros HL. induction es as [|[[r c] v] es IH]; cbn; [constructor|]. constructor; [|exact IH].
+  repeat split; try reflexivity. cbn. rewrite !(nth_map2_add D s) by exact HL. rewrite ldexp_ldexp.
+  match goal with |- ldexp _ ?a == ldexp _ ?b => replace a with b by lia end. reflexivity.
+Qed.
+Lemma ent_eq_trans_list a b c : Forall2 ent_eq a b -> Forall2 ent_eq b c -> Forall2 ent_eq a c.
+Proof.
+  intros H. revert c. induction H as [|x y a b [E1 [E2 E3]] _ IH]; intros c Hc; inversion Hc as [|? z ? c' [G1 [G2 G3]] Hc']; subst; constructor.
+  - repeat split; try congruence. rewrite E3. exact G3.
+  - apply IH. exact Hc'.
+Qed.
+
+Lemma nth_map_seq0 (f : nat -> Q) n j : (j < n)%nat -> nth j (map f (seq 0 n)) 0 = f j.
+Proof.
+  intros Hj. rewrite (nth_indep _ 0 (f 0%nat)) by (rewrite map_length, seq_length; exact Hj).
+  rewrite map_nth, seq_nth by exact Hj. reflexivity.
+Qed.
+Lemma col_sums_compat n es es' : Forall2 ent_eq es es' ->
+  forall j, nth j (col_sums n es) 0 == nth j (col_sums n es') 0.
+Proof.
+  intros H j. unfold col_sums.
+  destruct (Nat.lt_ge_cases j n) as [Hj|Hj].
+  - rewrite !nth_map_seq0 by exact Hj.
+    induction H as [|[[r c] v] [[r' c'] v'] es es' [E1 [E2 E3]] _ IH]; cbn; [reflexivity|].
+    cbn in E1, E2, E3. subst. destruct (Nat.eqb c' j); [rewrite E3, IH; reflexivity|exact IH].
+  - rewrite !nth_overflow by (rewrite map_length, seq_length; exact Hj). reflexivity.
+Qed.
+
+Lemma loop_coherent fuel n es0 : forall es D D',
+  length D = n -> Forall2 ent_eq es (rescale es0 D) ->
+  scale_sym_loop fuel n es D = Some D' ->
+  length D' = n /\ Forall2 ent_eq (final_entries fuel n es) (rescale es0 D').
+Proof.
+  induction fuel as [|f IH]; intros es D D' LD Inv H; cbn in H; [discriminate|].
+  cbn [final_entries].
+  destruct (forallb (fun z => Z.eqb z 0) (map rsca (col_sums n es))) eqn:E.
+  - injection H as HD. rewrite <- HD. split; assumption.
+  - assert (Ls : length (map rsca (col_sums n es)) = n) by (unfold col_sums; rewrite !map_length, seq_length; reflexivity).
+    apply (IH (rescale es (map rsca (col_sums n es))) (map2 Z.add D (map rsca (col_sums n es))) D').
+    + rewrite map2_length. lia.
+    + eapply ent_eq_trans_list; [apply rescale_compat; exact Inv|]. apply rescale_rescale. lia.
+    + exact H.
+Qed.
+
+Definition abs_entries (es : list entry) : list entry := map (fun e : entry => let '(r, c, v) := e in (r, c, qabs v)) es.
+
+(* C20, KKT clause, as stated: whenever scale_symmetric returns exponents D', every column of |K| scaled by
+   2^(D'_r + D'_c) has absolute sum in [1,4), or is (numerically) empty *)
+Theorem equilibration_normalises n es D' :
+  scale_symmetric n es = Some D' ->
+  length D' = n /\
+  forall j, (j < n)%nat ->
+    let R := nth j (col_sums n (rescale (abs_entries es) D')) 0 in
+    R < c_1e10 \/ (1 <= R /\ R < 4).
+Proof.
+  unfold scale_symmetric. fold (abs_entries es). intros H.
+  assert (Inv0 : Forall2 ent_eq (abs_entries es) (rescale (abs_entries es) (repeat 0%Z n))).
+  { clear H. induction (abs_entries es) as [|[[r c] v] l IH]; cbn; [constructor|]. constructor; [|exact IH].
+    repeat split; try reflexivity. cbn.
+    assert (Z0 : forall k, nth k (repeat 0%Z n) 0%Z = 0%Z).
+    { intros k. destruct (Nat.lt_ge_cases k n); [apply nth_repeat|apply nth_overflow; rewrite repeat_length; lia]. }
+    rewrite !Z0. cbn. symmetry. apply ldexp_zero. }
+  destruct (loop_coherent 100 n (abs_entries es) _ _ D' (repeat_length _ _) Inv0 H) as [LD Coh].
+  split; [exact LD|]. intros j Hj. cbv zeta.
+  pose proof (loop_exit_condition 100 n _ _ D' H j Hj) as Ex. cbv zeta in Ex.
+  rewrite <- (col_sums_compat n _ _ Coh j). exact Ex.
+Qed.
+
+Lemma from_kkt_inv n m H J sc : from_kkt n m H J = Some sc ->
+  exists w, scale_symmetric (n + m) (kkt_entries n H J) = Some w /\ sc = mk_scaling (map Z.opp (firstn n w)) (skipn n w) 0.
+Proof.
+  unfold from_kkt. generalize (scale_symmetric (n + m) (kkt_entries n H J)). intros [w|] E.
+  - exists w. split; [reflexivity|]. congruence.
+  - discriminate.
+Qed.
